@@ -201,7 +201,7 @@ pub struct Model {
     pub late: bool,
 }
 
-pub fn ev_name(ev: u32) -> &'static str { match ev { 1 => "e1", 2 => "e2", 3 => "*", 4 => "e1.x", _ => "" } }
+pub fn ev_name(ev: u32) -> &'static str { match ev { 1 => "e1", 2 => "e2", 3 => "*", 4 => "e1.x", 5 => "i1", 6 => "i2", _ => "" } }
 
 fn spec_ok(sh: &Shape, t: &[u32]) -> bool {
     // legal state specification for a target list of length <= 2
@@ -284,10 +284,15 @@ pub struct VDm {
     pub guards: Vec<u32>,
     /// (content id, what): 1 raise "i1", 2 raise "i2", 3 fail (return false)
     pub effects: Vec<(u32, u32)>,
+    /// number of content bodies executed; raising stops after `raise_cap` bodies (bounds live-locking documents)
+    pub bodies: u32,
+    pub raise_cap: u32,
+    /// platform sends: (target, event name, has invoke id)
+    pub sends: Vec<(String, String, bool)>,
 }
 
 impl VDm {
-    pub fn new(g: GlobalDataArc) -> VDm { VDm { g, log: Vec::new(), guards: Vec::new(), effects: Vec::new() } }
+    pub fn new(g: GlobalDataArc) -> VDm { VDm { g, log: Vec::new(), guards: Vec::new(), effects: Vec::new(), bodies: 0, raise_cap: 1000, sends: Vec::new() } }
 }
 
 impl Datamodel for VDm {
@@ -319,16 +324,21 @@ impl Datamodel for VDm {
     }
     fn executeContent(&mut self, _fsm: &Fsm, id: ExecutableContentId) -> bool {
         self.log.push(id);
+        self.bodies += 1;
         let mut i = 0;
         while i < self.effects.len() {
             if self.effects[i].0 == id {
                 let w = self.effects[i].1;
-                if w == 1 { self.g.lock().unwrap().enqueue_internal(Event::new_simple("i1")); }
-                if w == 2 { self.g.lock().unwrap().enqueue_internal(Event::new_simple("i2")); }
+                if w == 1 && self.bodies <= self.raise_cap { self.g.lock().unwrap().enqueue_internal(Event::new_simple("i1")); }
+                if w == 2 && self.bodies <= self.raise_cap { self.g.lock().unwrap().enqueue_internal(Event::new_simple("i2")); }
                 if w == 3 { return false; }
             }
             i += 1;
         }
+        true
+    }
+    fn send(&mut self, _ioc: &str, target: &Data, event: Event) -> bool {
+        self.sends.push((target.to_string(), event.name.clone(), event.invoke_id.is_some()));
         true
     }
 }
@@ -351,7 +361,7 @@ pub struct RefOut {
 }
 
 fn name_matches(ev: u32, name: u32) -> bool {
-    // descriptor ev against event name code (1 e1, 2 e2, 4 e1.x)
+    // descriptor ev against event name code (1 e1, 2 e2, 4 e1.x, 5 i1, 6 i2, 7 done.state.*, 8 error.*)
     if ev == 3 { return true; }
     if ev == 0 { return false; }
     ev == name || (ev == 1 && name == 4)
@@ -511,12 +521,13 @@ impl<'a> Ref<'a> {
                 let p = sh.parent[s as usize];
                 if p == 1 { out.running = false; } else {
                     out.queue.push(100 + p);
+                    out.log.push(MARK_DONE + p);
                     let gp = sh.parent[p as usize];
                     if gp != 0 && sh.kind[gp as usize] == K_PAR {
                         let mut cm = 0u32; for x in conf.iter() { cm |= 1 << *x; }
                         let mut all = true;
                         for x in sh.ordered(sh.children(gp)) { if !self.in_final(x, cm) { all = false; } }
-                        if all { out.queue.push(100 + gp); }
+                        if all { out.queue.push(100 + gp); out.log.push(MARK_DONE + gp); }
                     }
                 }
             }
@@ -559,6 +570,109 @@ impl<'a> Ref<'a> {
         self.enter(&tl, &mut conf, &hv_now, &mut out, first_entry);
         out.config = conf;
         out
+    }
+}
+
+/// marker tokens inside reference logs: position at which done.state.<s> is put on the internal queue
+pub const MARK_DONE: u32 = 9000;
+
+/// reference log without marker tokens (what VDm can observe)
+pub fn plain(log: &[u32]) -> Vec<u32> { let mut v = Vec::new(); for t in log { if *t < MARK_DONE { v.push(*t); } } v }
+
+pub struct RunOut {
+    pub log: Vec<u32>,
+    pub config: Vec<u32>,
+    pub hv: HV,
+    pub final_conf: Vec<u32>,
+    pub done_invoke: bool,
+    pub ext_left: usize,
+    pub blocked: bool,
+    pub steps: u32,
+}
+
+pub const EXT_CANCEL: u32 = 99;
+
+fn queue_ev_code(q: u32) -> (u32, u32) {
+    // internal queue code -> (event name code for matching, EV log code)
+    if q == 1 { (5, 5) } else if q == 2 { (6, 6) } else if q == 9 { (8, 8) } else { (7, 7) }
+}
+
+impl<'a> Ref<'a> {
+    /// mainEventLoop + exitInterpreter of the W3C algorithm (no invokes): macrosteps until the external queue holds nothing more.
+    pub fn run(&self, conf0: &[u32], hv0: &HV, queue0: &[u32], externals: &[u32], guards: &[u32], effects: &[(u32, u32)], raise_cap: u32,
+               first_entry: &mut u32, has_parent: bool, max_steps: u32) -> RunOut {
+        let sh = self.sh();
+        let mut out = RunOut { log: Vec::new(), config: conf0.to_vec(), hv: hv0.clone(), final_conf: Vec::new(), done_invoke: false, ext_left: 0, blocked: false, steps: 0 };
+        let mut queue: Vec<u32> = queue0.to_vec();
+        let mut running = true;
+        let mut bodies = 0u32;
+        let mut xi = 0usize;
+        while running {
+            // ---- macrostep
+            loop {
+                if !running { break; }
+                let c = mask_of(&out.config);
+                let mut errors = 0u32;
+                let mut sel = self.select(c, true, 0, guards, &out.hv, &mut out.log, &mut errors);
+                let mut e = 0; while e < errors { queue.push(9); e += 1; }
+                if sel.is_empty() {
+                    if queue.is_empty() { break; }
+                    let q = queue.remove(0);
+                    let (name, code) = queue_ev_code(q);
+                    out.log.push(TOK_EV + code);
+                    let mut errors = 0u32;
+                    sel = self.select(c, false, name, guards, &out.hv, &mut out.log, &mut errors);
+                    let mut e = 0; while e < errors { queue.push(9); e += 1; }
+                }
+                if !sel.is_empty() {
+                    out.steps += 1;
+                    if out.steps > max_steps { out.blocked = true; return out; }
+                    let r = self.microstep(&out.config, &sel, &out.hv, first_entry);
+                    self.absorb(&r, &mut out, &mut queue, effects, raise_cap, &mut bodies);
+                    if !r.running { running = false; }
+                }
+            }
+            if !running { break; }
+            if xi >= externals.len() { out.blocked = true; break; }
+            let x = externals[xi]; xi += 1;
+            if x == EXT_CANCEL { running = false; continue; }
+            out.log.push(TOK_EV + x);
+            let c = mask_of(&out.config);
+            let mut errors = 0u32;
+            let sel = self.select(c, false, x, guards, &out.hv, &mut out.log, &mut errors);
+            let mut e = 0; while e < errors { queue.push(9); e += 1; }
+            if !sel.is_empty() {
+                out.steps += 1;
+                if out.steps > max_steps { out.blocked = true; return out; }
+                let r = self.microstep(&out.config, &sel, &out.hv, first_entry);
+                self.absorb(&r, &mut out, &mut queue, effects, raise_cap, &mut bodies);
+                if !r.running { running = false; }
+            }
+        }
+        out.ext_left = externals.len() - xi;
+        if out.blocked { return out; }
+        // ---- exitInterpreter
+        out.final_conf = out.config.clone();
+        let mut ex = sh.ordered(mask_of(&out.config)); ex.reverse();
+        for s in ex {
+            out.log.push(X_EXIT + s);
+            out.config.retain(|x| *x != s);
+            if sh.kind[s as usize] == K_FINAL && sh.parent[s as usize] == 1 && has_parent { out.done_invoke = true; }
+        }
+        out
+    }
+
+    fn absorb(&self, r: &RefOut, out: &mut RunOut, queue: &mut Vec<u32>, effects: &[(u32, u32)], raise_cap: u32, bodies: &mut u32) {
+        for &tok in &r.log {
+            if tok >= MARK_DONE { queue.push(100 + (tok - MARK_DONE)); continue; }
+            out.log.push(tok);
+            if tok < TOK_G {
+                *bodies += 1;
+                for (id, w) in effects { if *id == tok && (*w == 1 || *w == 2) && *bodies <= raise_cap { queue.push(*w); } }
+            }
+        }
+        out.config = r.config.clone();
+        out.hv = r.hv.clone();
     }
 }
 
